@@ -144,3 +144,8 @@ package rest
 //@   ensures [cors] err == nil ==> jcfg.CORSAllowedOrigins == cfg.CORSAllowedOrigins && jcfg.CORSAllowedMethods == cfg.CORSAllowedMethods && jcfg.CORSAllowedHeaders == cfg.CORSAllowedHeaders && jcfg.CORSExposedHeaders == cfg.CORSExposedHeaders && jcfg.CORSAllowCredentials == cfg.CORSAllowCredentials && jcfg.CORSMaxAge == cfg.CORSMaxAge.String()
 //@   ensures [id] err == nil && cfg.ID != "" ==> jcfg.ID == libfn("peer.Encode", 0, cfg.ID)
 //@   modifies nothing
+
+// ---- "translated into exactly the cluster operation its route names": the REST route table (method and pattern ->
+// handler); nothing else is routed ----
+//@ directive route_handlers routes GET:/id=api.idHandler GET:/version=api.versionHandler GET:/peers=api.peerListHandler POST:/peers=api.peerAddHandler DELETE:/peers/{peer}=api.peerRemoveHandler POST:/add=api.addHandler GET:/allocations=api.allocationsHandler GET:/allocations/{hash}=api.allocationHandler GET:/pins=api.statusAllHandler POST:/pins/{hash}/recover=api.recoverHandler POST:/pins/recover=api.recoverAllHandler GET:/pins/{hash}=api.statusHandler POST:/pins/{hash}=api.pinHandler POST:/pins/{keyType:ipfs|ipns|ipld}/{path:.*}=api.pinPathHandler DELETE:/pins/{hash}=api.unpinHandler DELETE:/pins/{keyType:ipfs|ipns|ipld}/{path:.*}=api.unpinPathHandler POST:/ipfs/gc=api.repoGCHandler GET:/health/graph=api.graphHandler GET:/health/alerts=api.alertsHandler GET:/monitor/metrics/{name}=api.metricsHandler GET:/monitor/metrics=api.metricNamesHandler
+//@   property C11
